@@ -220,6 +220,20 @@ def run_check(prop, tier, master, params=None, runs=None, verbose=True, evidence
     return 0
 
 
+def run_single(prop, tier, master, run_seed):
+    batch = Batch(prop, tier, master, verbose=True)
+    batch.build_pool()
+    spec = gen.gen_spec(run_seed, prop, batch.pool, batch.HS, batch.p.get("knobs"))
+    print(json.dumps({k: v for k, v in spec.items() if k != "texts"})[:6000])
+    rec, vs = batch.run_one(spec, full=False)
+    for o in rec["ops"]:
+        print({k: v for k, v in o.items() if k != "enc"})
+    print({k: v for k, v in rec.items() if k not in ("ops", "schedule", "events", "conflict_pairs", "fingerprints")})
+    for v in vs:
+        print("VIOLATION", v)
+    return 1 if vs else 0
+
+
 def replay(prop, path):
     doc = json.load(open(path))
     spec = doc["spec"]
@@ -249,6 +263,7 @@ def main(argv=None):
     ap.add_argument("--selftest")
     ap.add_argument("--quiet", action="store_true")
     ap.add_argument("--no-evidence", action="store_true")
+    ap.add_argument("--run-seed", type=int, help="debug: execute the single run with this run seed (same pool as the batch) and print its record")
     a = ap.parse_args(argv)
     master = int(os.environ.get("VERIF_SEED", "1") or 1)
     try:
@@ -265,6 +280,8 @@ def main(argv=None):
             return 2
         if a.replay:
             return replay(a.prop, a.replay)
+        if a.run_seed is not None:
+            return run_single(a.prop, a.tier, master, a.run_seed)
         return run_check(a.prop, a.tier, master, runs=a.runs, verbose=not a.quiet, evidence=not a.no_evidence)
     except HarnessFailure as e:
         print(f"HARNESS-ERROR {e}", flush=True)
